@@ -149,6 +149,25 @@ def gen_admissible(rng, c, evars, svars, syms):
         return p if admissible(p, c) else None
     ev = [e for e in evars if e not in c[0]] or None
     sv = [s for s in svars if s not in c[1]] or None
+    # instances that actually *use* the variables the constraints talk about, with the allowed polarity
+    # (an instance in which they do not occur at all satisfies every constraint and tests nothing)
+    if (c[2] or c[3]) and rng.random() < 0.7:
+        parts = []
+        for X in sorted(set(c[2]) | set(c[3])):
+            if X in c[1]:
+                continue
+            if X in c[2] and X in c[3]:
+                continue                       # both polarities demanded: only absence satisfies it
+            parts.append(('s', X) if X in c[2] else ('i', ('s', X), T.BOT))
+        rng.shuffle(parts)
+        if parts:
+            p = parts[0]
+            for q in parts[1:]:
+                p = ('a', p, q) if rng.random() < 0.5 else ('i', ('i', p, T.BOT), q)
+            if rng.random() < 0.3:
+                p = ('a', ('y', rng.choice(syms)), p)
+            if admissible(p, c):
+                return p
     for _ in range(12):
         p = gen_concrete(rng, ev or [min(set(range(9)) - set(c[0]))], sv or [min(set(range(9)) - set(c[1]))], syms, rng.randint(0, 2))
         if admissible(p, c):
